@@ -8,8 +8,8 @@ def countOk : List (Nat × Bool) → Nat
 
 /-- delay parameter of an event (none for events that carry none) -/
 def evDelayOk (D : Nat) : Ev → Prop
-  | .build _ d => D ≤ d
-  | .tick _ _ d => D ≤ d
+  | .build _ d _ => D ≤ d
+  | .tick _ _ d _ => D ≤ d
   | _ => True
 
 /-- Invariant of the watcher, for backoff delays that are all ≥ D. -/
@@ -23,15 +23,18 @@ structure Inv (D : Nat) (w : W) : Prop where
   times  : ∀ t b, w.lookups.head? = some (t, b) → t ≤ w.now
   dueOk  : ∀ a t, w.mode = .waitT a → w.lookups.head? = some (t, true) → t + w.minI ≤ a
   dueFail : ∀ a t, w.mode = .waitT a → w.lookups.head? = some (t, false) → t + D ≤ a
-  dueRN  : ∀ n, w.mode = .waitRN n → ∃ t, w.lookups.head? = some (t, true) ∧ n = t + w.minI
+  dueRN  : ∀ n, w.mode = .waitRN n → ∃ t, w.lookups.head? = some (t, true) ∧ t + w.minI ≤ n ∧ n = w.lastDone + w.minI
+  doneOk : ∀ a t, w.mode = .waitT a → w.lookups.head? = some (t, true) → w.lastDone + w.minI ≤ a
+  doneFail : ∀ a t, w.mode = .waitT a → w.lookups.head? = some (t, false) → w.lastDone + D ≤ a
+  doneLe : w.lastDone ≤ w.now
 
 theorem inv_init (D m : Nat) : Inv D (W.init m) := by
   constructor <;> simp [W.init, countOk]
 
-theorem doLookup_inv (D : Nat) (w : W) (ok : Bool) (d : Nat) (hd : D ≤ d)
+theorem doLookup_inv (D : Nat) (w : W) (ok : Bool) (d dur : Nat) (hd : D ≤ d)
     (h1 : w.consumed + (if w.rn then 1 else 0) ≤ w.rnCalls)
     (h2 : countOk w.lookups = w.consumed) :
-    Inv D (doLookup w ok d) := by
+    Inv D (doLookup w ok d dur) := by
   unfold doLookup
   cases ok
   · constructor <;> simp_all [countOk] <;> omega
@@ -39,16 +42,16 @@ theorem doLookup_inv (D : Nat) (w : W) (ok : Bool) (d : Nat) (hd : D ≤ d)
 
 theorem step_inv (D : Nat) (w : W) (e : Ev) (h : Inv D w) (hd : evDelayOk D e) : Inv D (step w e) := by
   cases e with
-  | build ok d =>
+  | build ok d dur =>
     simp only [evDelayOk] at hd
     simp only [step]
     split
     · rename_i hm
       have := h.idleEmpty hm
-      exact doLookup_inv D w ok d hd h.tokens (by simp [this, countOk])
+      exact doLookup_inv D w ok d dur hd h.tokens (by simp [this, countOk])
     all_goals exact h
   | resolveNow =>
-    obtain ⟨h1, h2, h2t, h3, h4, h5, h6, h7, h8, h9⟩ := h
+    obtain ⟨h1, h2, h2t, h3, h4, h5, h6, h7, h8, h9, h10, h11, h12⟩ := h
     simp only [step]
     split
     · rename_i n hm
@@ -61,7 +64,7 @@ theorem step_inv (D : Nat) (w : W) (e : Ev) (h : Inv D w) (hd : evDelayOk D e) :
     · rename_i hm1 hm2
       constructor <;> simp_all [countOk] <;> (try omega)
       all_goals (split <;> omega)
-  | tick to ok d =>
+  | tick to ok d dur =>
     simp only [evDelayOk] at hd
     simp only [step]
     split
@@ -69,19 +72,19 @@ theorem step_inv (D : Nat) (w : W) (e : Ev) (h : Inv D w) (hd : evDelayOk D e) :
       split
       · exact h
       · split
-        · obtain ⟨h1, h2, h2t, h3, h4, h5, h6, h7, h8, h9⟩ := h
+        · obtain ⟨h1, h2, h2t, h3, h4, h5, h6, h7, h8, h9, h10, h11, h12⟩ := h
           constructor <;> simp_all <;> (try omega)
           all_goals (intro t; constructor <;> (intro hb; first | (have := (h6 t).1 hb; omega) | (have := (h6 t).2 hb; omega)))
-        · have i := doLookup_inv D { w with now := max w.now due } ok d hd h.tokens (h.okWaitT due hm)
+        · have i := doLookup_inv D { w with now := max w.now due } ok d dur hd h.tokens (h.okWaitT due hm)
           exact i
     · rename_i hm
       split
       · exact h
-      · obtain ⟨h1, h2, h2t, h3, h4, h5, h6, h7, h8, h9⟩ := h
+      · obtain ⟨h1, h2, h2t, h3, h4, h5, h6, h7, h8, h9, h10, h11, h12⟩ := h
         constructor <;> simp_all <;> (try omega)
         all_goals first | (intro t; constructor <;> (intro hb; first | (have := (h6 t).1 hb; omega) | (have := (h6 t).2 hb; omega))) | assumption | omega
   | close =>
-    obtain ⟨h1, h2, h2t, h3, h4, h5, h6, h7, h8, h9⟩ := h
+    obtain ⟨h1, h2, h2t, h3, h4, h5, h6, h7, h8, h9, h10, h11, h12⟩ := h
     constructor <;> simp_all [step]
     all_goals first | assumption | omega
 
